@@ -5,7 +5,7 @@ from core import time_limit, CallTimeout
 RULE = ("seeded random integer matrices as for C12 (incl. infeasible systems, all columns forced, no rows left) and, for a quarter of the cases, "
         "implication chains over boolean columns with shuffled rows (one loop round of reducable_rows_and_columns per link); "
         "reducable_rows, reducable_columns_approx, reducable_rows_and_columns and reduce(rows, cols) compared with the model "
-        "(masks, reduced matrix, remaining bounds); oracle: full enumeration of the box (<= 20000 points quick): reported rows "
+        "(masks, reduced matrix, remaining bounds); reduce() also with caller-chosen row / column masks (rows only, columns only, both); oracle: full enumeration of the box (<= 20000 points quick): reported rows "
         "hold at every in-box point, forced columns hold in every solution, the reduced system's solution set equals the "
         "projection of the original one; variables / index of the result checked against its shape; non-trivial = something "
         "is reducible")
@@ -53,6 +53,27 @@ def do_case(ctx, inp):
     got_index = [v.id for v in R.index]
     if got_index != want_index or len(got_index) != R.shape[0]:
         ctx.fail("result-index-does-not-describe-rows", {"index": got_index, "expected": want_index})
+    # reduce() with masks chosen by the caller (rows only / columns only / both), and the two helpers directly: whatever
+    # is asked for is what is removed / substituted, labels follow
+    rng = ctx.rng
+    rmask = [int(rng.random() < 0.4) for _ in p["rows"]]
+    cmask = [rng.randint(lo, hi) if rng.random() < 0.4 else None for lo, hi in p["bnds"]]
+    cvec = np.array([np.nan if c is None else float(c) for c in cmask])
+    variants = [("rows", rmask, None), ("cols", None, cmask), ("both", rmask, cmask)]
+    for name, rm, cm in variants:
+        if rm is not None and all(rm) or cm is not None and all(c is not None for c in cm):
+            continue        # nothing left: numpy shapes of empty results are not part of the statement
+        R2 = g.reduce(rows_vector=None if rm is None else pnd.boolean_ndarray(np.array(rm)), columns_vector=None if cm is None else cvec)
+        op = {"op": "reduce_poly", "p": p}
+        if rm is not None: op["rows"] = rm
+        if cm is not None: op["cols"] = cm
+        ctx.op(op, {"reduced": snap_poly(R2)}, label="reduce-with-caller-masks-" + name)
+        keep2 = [i for i, c in zip(ids, cm or [None] * nc) if c is None]
+        if [v.id for v in R2.variables] != [0] + keep2:
+            ctx.fail("result-variables-do-not-describe-columns", {"variables": [v.id for v in R2.variables], "expected": [0] + keep2, "call": name})
+        want_idx = [g.index[i].id for i, m in enumerate(rm or [0] * len(p["rows"])) if not m]
+        if [v.id for v in R2.index] != want_idx:
+            ctx.fail("result-index-does-not-describe-rows", {"index": [v.id for v in R2.index], "expected": want_idx, "call": name})
     if box_size(p) > (20000 if ctx.quick else 200000):
         ctx.tags["box-not-enumerated"] += 1
         return
